@@ -1,24 +1,19 @@
-"""Per-property configuration of ./check (streams, budgets, trusted base, manifest text)."""
+"""Per-property configuration of ./check: one JSON file per property under tools/props.d/ (streams, budgets,
+trusted base, manifest text)."""
+import glob
+import json
+import os
 
 COMMON_TRUSTED = [
     "Coq 8.16.1 kernel (coqc, full .vo build; no -vos); vm_compute is used to evaluate the model on the correspondence cases and in proofs of closed finite facts; no native_compute; no extraction",
-    "Print Assumptions under every theorem of coq/props/<id>.v is re-run on each check and must report 'Closed under the global context' (no axioms) unless allowlisted by name in tools/props.py",
+    "Print Assumptions under every theorem of coq/props/<id>.v is re-run on each check and must report 'Closed under the global context' (no axioms) unless allowlisted by name in tools/props.d/<id>.json",
     "tools/extract_params.py (regex translator Rust constants / message inventories -> coq/theories/Params.v)",
     "correspondence check: harness/ (Rust, drives the real contracts of /repo's working tree under cw-multi-test 0.16.5 with white-whale-std patched to /repo/packages) + ./check (sharding, coqc vm_compute, comparison inside Coq by Corr.bad_cases)",
     "modelled, not verified: cosmwasm-std 1.5.4 numeric types (Prim.v), cw-multi-test bank/wasm execution and transaction atomicity, cw20-base, cw-storage-plus",
 ]
 
-PROPS = {
-    "C02": {
-        "title": "constant-product swap arithmetic",
-        "corr_modules": ["CorrC02"],
-        "streams": {"c02": ("CorrC02", "run_c02"), "c02_valid": ("CorrC02", "run_c02_valid")},
-        "n": {"quick": 3000, "thorough": 40000},
-        "trusted": ["hook terraswap_pair::verif_hooks (cfg wwcore_verif) re-exporting helpers::compute_swap"],
-        "assumptions": ["default build (no osmosis fee)"],
-        "design_ref": "DESIGN.md section 3 C02",
-        "level_text": "Theorems in Coq for all reserves/offers in [1,2^128) and all valid fee triples about an executable model of compute_swap (closed form proved equal to the operation-by-operation transcription, including every 256-bit overflow guard); the model is tied to the code on every run by evaluating it with vm_compute on the same inputs the real function and the real Simulation query are run on.",
-        "level_note": "Trusted: Coq kernel + vm_compute; the correspondence harness and its generators; cosmwasm-std Decimal256/Uint256 semantics as transcribed in Prim.v (validated by the same stream). No axioms.",
-        "technique": "Coq proof (lia/nia over Z with explicit overflow guards) + model/implementation correspondence by vm_compute",
-    },
-}
+PROPS = {}
+for _p in sorted(glob.glob(os.path.join(os.path.dirname(os.path.abspath(__file__)), "props.d", "C*.json"))):
+    _c = json.load(open(_p))
+    _c["streams"] = {k: tuple(v) for k, v in _c["streams"].items()}
+    PROPS[os.path.basename(_p)[:-5]] = _c
